@@ -490,7 +490,9 @@ func (res *CheckResult) checkSource(source parser.Source) {
 				variableLiterals = append(variableLiterals, *allotment)
 				res.checkExpression(allotment, TypePortion)
 			case *parser.RatioLiteral:
-				sum.Add(sum, allotment.ToRatio())
+				if !allotment.HasZeroDenominator() {
+					sum.Add(sum, allotment.ToRatio())
+				}
 			case *parser.RemainingAllotment:
 				if isLast {
 					remainingAllotment = allotment
@@ -543,7 +545,9 @@ func (res *CheckResult) checkDestination(destination parser.Destination) {
 				variableLiterals = append(variableLiterals, *allotment)
 				res.checkExpression(allotment, TypePortion)
 			case *parser.RatioLiteral:
-				sum.Add(sum, allotment.ToRatio())
+				if !allotment.HasZeroDenominator() {
+					sum.Add(sum, allotment.ToRatio())
+				}
 			case *parser.RemainingAllotment:
 				if isLast {
 					remainingAllotment = allotment
